@@ -302,13 +302,19 @@ theorem cjWhile_safe (o : CjOps α) {n : Nat} {sp sj tp tj : Array Int} (hS : WF
     · cases hr; exact hst
 
 /-- **`cljp_naive_splitting`**: `S`, `T` any two structurally valid `n × n` patterns, `splitting` of length `n`, any weights
-(`colorflag == 1` needs `n > 0`: for `n = 0` the kernel dereferences `max_element` of the empty vector `coloring`), any
+(for `n = 0` the kernel returns at once), any
 number of passes: a run that returns made no access outside `Sp`, `Sj`, `Tp`, `Tj`, `splitting` and its six work arrays -/
 theorem cljp_safe (o : CjOps α) (z : α) {n : Nat} {sp sj tp tj : Array Int} (hS : WFm (patS n sp sj) n) (hT : WFm (patS n tp tj) n)
-    (spl : Array Int) (hspl : spl.size = n) (colorflag : Int) (hcf : colorflag = 1 → 0 < n) (rnd : Array α) (fuel : Nat) :
+    (spl : Array Int) (hspl : spl.size = n) (colorflag : Int) (rnd : Array α) (fuel : Nat) :
     ∀ r, cljp o z n sp sj tp tj spl colorflag rnd fuel = some r → Safe r (fun spl' => spl'.size = n) := by
   intro r hr
   unfold cljp at hr
+  by_cases hn0 : n = 0
+  · rw [if_pos hn0] at hr
+    have e := (Option.some.inj hr).symm
+    rw [e]; exact Safe.pure hspl
+  rw [if_neg hn0] at hr
+  have hcf : colorflag = 1 → 0 < n := fun _ => by omega
   simp only at hr
   have hsz : sp.size = n + 1 := hS.ap_size
   have hnn : Safe (rd sp (n : Int)) (fun _ => True) :=
